@@ -393,6 +393,8 @@ func seqPrelude(sort, elem string, quant bool) string {
 	p("(assert (forall ((s %s)) (! (= (%s_app %s_empty s) s) :pattern ((%s_app %s_empty s)))))", S, S, S, S, S)
 	p("(assert (forall ((a %s) (b %s) (c %s)) (! (= (%s_app a (%s_app b c)) (%s_app (%s_app a b) c)) :pattern ((%s_app a (%s_app b c))))))", S, S, S, S, S, S, S, S, S)
 	p("(assert (forall ((s %s) (a Int) (b Int) (c Int)) (! (=> (and (<= 0 a) (<= a b) (<= b c) (<= c (%s_len s))) (= (%s_app (%s_sl s a b) (%s_sl s b c)) (%s_sl s a c))) :pattern ((%s_app (%s_sl s a b) (%s_sl s b c))))))", S, S, S, S, S, S, S, S, S)
+	p("(assert (forall ((s %s) (a Int)) (! (=> (and (<= 0 a) (<= a (%s_len s))) (= (%s_app (%s_sl s 0 a) (%s_sl s a (%s_len s))) s)) :pattern ((%s_sl s a (%s_len s))))))", S, S, S, S, S, S, S, S)
+	p("(assert (forall ((s %s) (i Int) (j Int)) (! (=> (and (= j (+ i 1)) (<= 0 i) (< i (%s_len s))) (= (%s_sl s 0 j) (%s_build (%s_sl s 0 i) (%s_idx s i)))) :pattern ((%s_sl s 0 i) (%s_sl s 0 j)))))", S, S, S, S, S, S, S, S)
 	p("(assert (forall ((s %s) (a Int)) (! (= (%s_sl s a a) %s_empty) :pattern ((%s_sl s a a)))))", S, S, S, S)
 	p("(assert (forall ((s %s)) (! (= (%s_sl s 0 (%s_len s)) s) :pattern ((%s_sl s 0 (%s_len s))))))", S, S, S, S, S)
 	p("(assert (forall ((x %s) (y %s) (a Int) (b Int)) (! (=> (and (<= 0 a) (<= a b) (<= b (%s_len x))) (= (%s_sl (%s_app x y) a b) (%s_sl x a b))) :pattern ((%s_sl (%s_app x y) a b)))))", S, S, S, S, S, S, S, S)
